@@ -996,9 +996,17 @@ class TermCanvas(Canvas):
         if lines == 0:
             lines = 1
 
+        if not self.scrollregion_start <= row <= self.scrollregion_end:
+            # only has an effect inside the scrolling region
+            return
+
+        # more lines than the region holds only blank the rest of the region
+        lines = min(lines, self.scrollregion_end - row + 1)
+
         while lines > 0:
-            self.term.insert(row, self.empty_line())
+            # the line at the bottom margin is pushed out
             self.term.pop(self.scrollregion_end)
+            self.term.insert(row, self.empty_line())
             lines -= 1
 
     def remove_lines(self, row: int | None = None, lines: int = 1) -> None:
@@ -1014,6 +1022,13 @@ class TermCanvas(Canvas):
 
         if lines == 0:
             lines = 1
+
+        if not self.scrollregion_start <= row <= self.scrollregion_end:
+            # only has an effect inside the scrolling region
+            return
+
+        # more lines than the region holds only blank the rest of the region
+        lines = min(lines, self.scrollregion_end - row + 1)
 
         while lines > 0:
             self.term.pop(row)
